@@ -12,7 +12,7 @@ EXHAUSTIVE = {"all 2^17 quirk sets (thorough tier)": True, "every single option 
 
 
 def generate(R, tier):
-    n = 6000 if tier == "quick" else 100000
+    n = 6000 if tier == "quick" else 500000
     for k in range(256):
         for pad in (0, 1, 255):
             yield {"stream": "kind-sweep", "direct": {"layout": [2, k, 0] if k % 2 else [k], "eol": pad, "quirks": 1 << (k % 17)}}
@@ -25,7 +25,7 @@ def generate(R, tier):
                 yield {"stream": "quirk-sweep", "direct": {"layout": [], "eol": 0, "quirks": (1 << i) | (1 << j)}}
         for _ in range(3000):
             yield {"stream": "quirk-sweep", "direct": {"layout": [R.randrange(256) for _ in range(R.randint(0, 12))], "eol": R.choice([0, 3, 255]), "quirks": R.getrandbits(17)}}
-    for c in c03.generate(R, "quick"):
+    for c in c03.generate(R, tier):
         if c["stream"] in ("well-formed", "hostile-options"):
             n -= 1
             if n < 0:
